@@ -83,10 +83,7 @@ func typeID(ty an.Type) string {
 }
 
 func idFromNamed(typ *types.Named) string {
-	pkg := typ.Obj().Pkg().Name()
-	if len(pkg) > 4 {
-		pkg = pkg[:4]
-	}
+	pkg := gen.FirstRunes(typ.Obj().Pkg().Name(), 4)
 	// distinct instantiations of a generic type are distinct types
 	return pkg + "_" + typ.Obj().Name() + gen.TypeArgsSuffix(typ)
 }
